@@ -1,6 +1,6 @@
 (* C03 — NodePool limits and static node caps are never exceeded.
    Property theorems only; each is closed by [exact] of a lemma from C03/Proofs*.v. *)
-From KV Require Import C03.Model C03.Proofs C03.Proofs1 C03.Proofs2 C03.Check C03.Proofs3.
+From KV Require Import C03.Model C03.Proofs C03.Proofs1 C03.Proofs2 C03.Check C03.Proofs3 C03.Proofs4.
 Open Scope Z_scope.
 
 (* ---------------------------------------------------------------- static pools: the bookkeeping *)
@@ -53,7 +53,9 @@ Print Assumptions cleanup_keeps_tracked_prefix_refuted.
 
 (* For every node limit L and EVERY interleaving of provisioning reconciles, static-drift command
    computations, NodeClaim creations (successful or failed), in-line and informer state updates,
-   releases, API deletions, delete events and disruption marks: nothing panics, and the NodeClaims of a
+   releases, API deletions, delete events, disruption marks, deprovisioning reconciles (any victims) and
+   process RESTARTS (NodePoolState and in-flight work lost, informers replay, reconciles gated on
+   Cluster.Synced): nothing panics, and the NodeClaims of a
    pool that exist in the API plus the creations already granted never exceed the pool's node limit. *)
 Theorem static_cap : forall (L : name -> Z), (forall np, 0 <= L np) ->
   forall (ops : list sop) (np : name),
@@ -79,6 +81,30 @@ Theorem static_provision_grant : forall (s : st) (np : name) (l r a d p : Z),
     (0 <= p -> 0 <= l - (a + d + p) -> a + d + p + g <= l).
 Proof. exact provision_grant_l. Qed.
 Print Assumptions static_provision_grant.
+
+(* static_fixpoint (scale-up half): on a quiescent pool (nothing reserved, nothing deleting or pending) with
+   active <= replicas <= node limit, ONE provisioning reconcile whose creates succeed reaches exactly the
+   replica count with nothing left reserved, and any further provisioning or deprovisioning reconcile
+   leaves the state unchanged. (Scale-down: Example deprov_example below; the real controllers are
+   driven to the fixpoint in part D of the harness.) *)
+Theorem static_fixpoint : forall s np l r a names names' victims,
+  np <> 0%nat -> counts s np = (a, 0, 0) -> reserved s np = 0 -> a <= r -> r <= l ->
+  NoDup names -> (forall c, In c names -> known s np c = false) -> r - a <= Z.of_nat (List.length names) ->
+  let s1 := prov_reconcile s np l r names in
+  counts s1 np = (r, 0, 0) /\ reserved s1 np = 0 /\
+  prov_reconcile s1 np l r names' = s1 /\ deprov_reconcile s1 np r victims = s1.
+Proof. exact static_fixpoint_up_l. Qed.
+Print Assumptions static_fixpoint.
+
+(* int64: under these bounds no intermediate value of Reserve/ReleaseNodeCount leaves the int64 range, so the
+   model's unbounded arithmetic is the code's. The generators stay inside them (limits <= 6 or MaxInt64,
+   requests in [-2, 3], negative requests never together with the MaxInt64 limit). *)
+Theorem reserve_no_wrap : forall l c R w,
+  0 <= l < 2 ^ 63 -> 0 <= c <= 2 ^ 32 -> 0 <= R <= 2 ^ 61 -> - 2 ^ 61 <= w <= 2 ^ 61 ->
+  in64 (l - c) /\ in64 (l - c - R) /\
+  in64 (R + (if l - c - R <? w then l - c - R else w)) /\ in64 (R - w).
+Proof. exact reserve_no_wrap_l. Qed.
+Print Assumptions reserve_no_wrap.
 
 (* ---------------------------------------------------------------- resource limits *)
 
@@ -195,6 +221,24 @@ Example unmark_example :
   m_marked (mrun [1; 2; 3]%nat [MMark [1; 2]%nat; MRemove 1%nat; MUnmark [1; 2]%nat]) = [] /\
   m_marked (mrun [1; 2; 3]%nat [MMark [1; 2; 3]%nat; MRemove 1%nat; MUnmark [9; 1; 2]%nat]) = [3%nat].
 Proof. vm_compute. split; reflexivity. Qed.
+
+(* scale-down to the fixpoint: 3 active, replicas 1 -> two victims marked Deleting and cleaned up; then
+   both reconciles are no-ops *)
+Example deprov_example :
+  let s := prov_reconcile st0 1%nat 5 3 [1; 2; 3]%nat in
+  let s1 := deprov_reconcile s 1%nat 1 [3; 1; 2]%nat in
+  counts s 1%nat = (3, 0, 0) /\ counts s1 1%nat = (1, 0, 0) /\ reserved s1 1%nat = 0 /\
+  counts (deprov_reconcile s1 1%nat 1 [2]%nat) 1%nat = (1, 0, 0) /\ counts (prov_reconcile s1 1%nat 5 1 [9]%nat) 1%nat = (1, 0, 0).
+Proof. vm_compute. repeat split. Qed.
+
+(* a restart in the middle: the state is lost, reconciles are gated until the informers have replayed *)
+Example restart_example :
+  let L := fun _ : name => 2 in
+  let s := srun L [ProvBegin 1%nat 2; TkCreate 0 true; TkUpdate 0; TkRelease 0; TkCreate 1 true; TkUpdate 1; TkRelease 1; Restart] in
+  api_count s 1%nat = 2 /\ counts (nps s) 1%nat = (0, 0, 0) /\
+  granted_count (sstep L s (ProvBegin 1%nat 2)) 1%nat = 0 /\                                  (* gated: not synced *)
+  granted_count (sstep L (sstep L (sstep L s (InfUpdate 1%nat false)) (InfUpdate 2%nat false)) (ProvBegin 1%nat 3)) 1%nat = 0.
+Proof. vm_compute. repeat split. Qed.
 
 Example rounds_example :
   rounds [("cpu", 8000)] [] [node_cap [("cpu", 4000)]; node_cap [("cpu", 4000)]].
